@@ -244,6 +244,7 @@ pub fn run_history(ctx: &mut Ctx, scen: &'static str, ops: &[Op]) -> bool {
     let mut model = Model::default();
     let mut shadow: Option<TlsRecordsParser> = None; // fresh parser since the last completion/reset
     let mut trace: Vec<String> = Vec::new();
+    let mut over_cap_record = false;
     ctx.count("histories");
     for (step, op) in ops.iter().enumerate() {
         let before = snapshot(real.verif_defrag_buffer());
@@ -283,8 +284,13 @@ pub fn run_history(ctx: &mut Ctx, scen: &'static str, ops: &[Op]) -> bool {
         let hook_buf_len = real.verif_defrag_buffer().len();
         ctx.max("buffer.max_len", hook_buf_len as u64);
         let mut bad: Option<String> = None;
-        // invariant: buffer never reaches 10 MiB
-        if hook_buf_len >= MAX {
+        // invariant: buffer never reaches 10 MiB (stated for records within the record-length cap)
+        if let Op::Rec { data, .. } | Op::NoCopy { data, .. } = op {
+            if data.len() > 16640 {
+                over_cap_record = true;
+            }
+        }
+        if hook_buf_len >= MAX && !over_cap_record {
             bad = Some("buffer-reached-10MiB".into());
         }
         if bad.is_none() && !matches!(op, Op::Reset) {
@@ -500,7 +506,7 @@ pub fn run(ctx: &mut Ctx) {
     ctx.family("S1-S2-splits", n, |ctx, case: &mut Case| {
         let r = &mut case.rng;
         let hb = case.idx % 4 == 3;
-        let sz = if r.chance(1, 20) { gen::MEDIUM } else { gen::SMALL };
+        let sz = if !ctx.miri && r.chance(1, 20) { gen::MEDIUM } else { gen::SMALL };
         let (payload, first) = if hb { hb_payload(r) } else { hs_payload(r, sz) };
         let ty = if hb { 0x18 } else { 0x16 };
         let k = r.usize(1, 11);
@@ -683,6 +689,55 @@ pub fn run(ctx: &mut Ctx) {
         ops.push(Op::rec(0x16, AHs::HelloRequest.to_bytes()));
         if run_history(ctx, "S5", &ops) {
             ctx.count("s5.streams");
+        }
+    });
+
+    // ------------------------------------------------ S9: messages whose accumulated size is a power-of-two coincidence
+    // (65535 / 65536 / 65537 bytes, 2 x and 3 x 65536, 2^18, 2^20) split into records within the record-length cap
+    ctx.floor("s9.splits", 20);
+    ctx.sweep("S9-size-coincidence", 27, |ctx, idx| {
+        let mut r = Rng::new(idx ^ 0x59_51);
+        let total = [65535usize, 65536, 65537, 131071, 131072, 131073, 196608, 1 << 18, 1 << 20][(idx % 9) as usize];
+        let mut payload = vec![20u8, ((total - 4) >> 16) as u8, ((total - 4) >> 8) as u8, (total - 4) as u8];
+        payload.extend(r.bytes(total - 4));
+        let piece = [16384usize, 16000, 16640][(idx / 9) as usize];
+        let mut cutv: Vec<usize> = Vec::new();
+        let mut at = if idx % 2 == 0 { piece } else { 1 + (idx as usize % 5) };
+        while at < total {
+            cutv.push(at);
+            at += piece;
+        }
+        if run_split(ctx, "S9", 0x16, &payload, &split_at(&payload, &cutv)) {
+            ctx.count("s9.splits");
+        }
+    });
+
+    // ------------------------------------------------ S8: hand-built records above the record-length cap: a first
+    // fragment around / above 10 MiB (copied without a size check), then continuations — all refused TooLarge,
+    // foreign types Tag, nocopy NonEmpty, state unchanged; reset; fresh behaviour
+    ctx.floor("s8.histories", 6);
+    ctx.sweep("S8-giant-first-fragment", 6, |ctx, idx| {
+        let n = [MAX - 1, MAX, MAX + 1, MAX + 16384, 1 << 24, (1 << 24) + 3][idx as usize];
+        let mut first = match gen::lazy_zeroed(n) {
+            Some(b) => b,
+            None => {
+                ctx.unjudged("giant-record-not-allocatable");
+                return;
+            }
+        };
+        first[..4].copy_from_slice(&[20, 0xff, 0xff, 0xff]);
+        let mut ops: Vec<Op> = Vec::new();
+        ops.push(Op::Rec { ty: 0x16, ver: 0x0303, data: first, len: 0xffff });
+        ops.push(Op::rec(0x16, vec![]));
+        ops.push(Op::rec(0x16, vec![0; 16]));
+        ops.push(Op::rec(0x17, vec![1, 2, 3]));
+        ops.push(Op::NoCopy { ty: 0x16, ver: 0x0303, data: vec![0, 0, 0, 0], len: 4 });
+        ops.push(Op::rec(0x16, vec![0; 16640]));
+        ops.push(Op::rec(0x15, vec![1, 0]));
+        ops.push(Op::Reset);
+        ops.push(Op::rec(0x16, AHs::HelloRequest.to_bytes()));
+        if run_history(ctx, "S8", &ops) {
+            ctx.count("s8.histories");
         }
     });
 
